@@ -441,6 +441,13 @@ func c15RunSeed(seed uint64, tier string) *Outcome {
 	for i := 0; i < rr.Range(2, 3); i++ {
 		g.links = append(g.links, fmt.Sprintf("ipfs://%x", rr.U64()))
 	}
+	if rr.P(0.6) {
+		// links that differ only in trailing separator characters of the signed text (address:reference:link)
+		g.links = append(g.links, g.links[0]+":")
+		if rr.Bool() {
+			g.links = append(g.links, g.links[0]+"::")
+		}
+	}
 	src := &c15Source{genSource: &genSource{rng: rr, nBlocks: rr.Range(8, 20), MaxTxs: 5, PTx: 0.9, TxGens: []TxGen{g.txGen},
 		Cadence: func(_ *kernel.Run, x *kernel.Rng) int64 { return int64(5e9) + x.I64n(2e9) }}, g: g}
 	src.BlockHook = func(_ *kernel.Run, x *kernel.Rng, b *kernel.Block, idx int) {
